@@ -41,7 +41,7 @@ class StreamRec:
     def status(self) -> Optional[int]:
         for block in self.header_blocks:
             for name, value in block:
-                if name == b":status":
+                if name == b":status" and value.isdigit():
                     st = int(value)
                     if st >= 200:
                         return st
@@ -51,7 +51,7 @@ class StreamRec:
     def final_headers(self) -> Optional[Headers]:
         for block in self.header_blocks:
             for name, value in block:
-                if name == b":status" and int(value) >= 200:
+                if name == b":status" and value.isdigit() and int(value) >= 200:
                     return block
         return None
 
@@ -60,8 +60,9 @@ class StreamRec:
         out = []
         for block in self.header_blocks:
             for name, value in block:
-                if name == b":status" and int(value) < 200:
+                if name == b":status" and value.isdigit() and int(value) < 200:
                     out.append(block)
+                    break
         return out
 
     @property
@@ -69,7 +70,7 @@ class StreamRec:
         seen_final = False
         for block in self.header_blocks:
             if any(name == b":status" for name, _ in block):
-                if any(name == b":status" and int(value) >= 200 for name, value in block):
+                if any(name == b":status" and value.isdigit() and int(value) >= 200 for name, value in block):
                     seen_final = True
                 continue
             if seen_final:
@@ -383,9 +384,12 @@ class H2Peer:
                 s.ended += 1
                 s.end_wire = self.wire_offset
             if self.auto_window and flow:
-                self.out += self.window_update(0, flow)
-                if not end and s.reset is None:
-                    self.out += self.window_update(sid, flow)
+                # top the windows up to at least 64 KiB once they have fallen below half of that
+                target = max(self.our_initial_window, DEFAULT_WINDOW)
+                if self.conn_recv_window < target // 2:
+                    self.out += self.window_update(0, target - self.conn_recv_window)
+                if not end and s.reset is None and s.recv_window < target // 2:
+                    self.out += self.window_update(sid, target - s.recv_window)
         elif isinstance(frame, hf.RstStreamFrame):
             s = self._stream(sid)
             if s.reset is None or s.reset < 0:
